@@ -38,7 +38,9 @@ def run_tlc(budget=2):
             cfg = src.read()
         with open(os.path.join(d, "Hstrp.cfg"), "w") as f:
             f.write(cfg.replace("Budget = 2", f"Budget = {budget}"))
-        r = subprocess.run(["tlc", "-workers", "1", "-deadlock", "-noGenerateSpecTE", "-metadir", os.path.join(d, "md"), "Hstrp"], cwd=d, capture_output=True, text=True, timeout=900)
+        # JAVA_TOOL_OPTIONS: TLC unpacks its standard modules into java.io.tmpdir - keep that inside the directory removed below
+        r = subprocess.run(["tlc", "-workers", "1", "-deadlock", "-noGenerateSpecTE", "-metadir", os.path.join(d, "md"), "Hstrp"], cwd=d, capture_output=True, text=True, timeout=900,
+                           env=dict(os.environ, JAVA_TOOL_OPTIONS=(os.environ.get("JAVA_TOOL_OPTIONS", "") + " -Djava.io.tmpdir=" + d).strip()))
         out = r.stdout
     finally:
         shutil.rmtree(d, ignore_errors=True)
